@@ -10,6 +10,12 @@
 // Callbacks arrive as GET, as form_post (POST, urlencoded body, optionally to a redirect URI with a query of its
 // own) and as POSTs that carry response parameters in the URL *and* in the body ("two-sets"): the code that is
 // exchanged and the state that matched must then belong to one consistent reading of the request (cbSpec.views).
+//
+// Part D (partd.go): the same RP instance also does everything else the rp package offers, each call with data of
+// its own (device authorization with its own scopes, client credentials, refresh, end session, revocation, userinfo,
+// rp.AuthURL / AuthURLHandler / rp.CodeExchange with per-call overrides, callbacks), as does a twin instance with
+// another configuration; after every step, and while such a call is parked at each of its yield points, a login on
+// the instance must still carry what was CONFIGURED ("always").
 package main
 
 import (
@@ -28,6 +34,7 @@ import (
 
 	"verif/internal/ev"
 	"verif/internal/mon"
+	"verif/internal/sched"
 )
 
 const stream = 17
@@ -108,6 +115,7 @@ func genConfig(r *rand.Rand, idx int) rpConfig {
 		}
 	}
 	cfg.SameState = r.IntN(8) == 0
+	cfg.ScopesSpare = idx%3 == 1
 	return cfg
 }
 
@@ -116,8 +124,9 @@ type checker struct {
 	run   *ev.Run
 	idx   int
 	w     *world
-	fatal bool // a panic or harness problem ended the case
-	pre   string // "" for the sequential parts, "concurrent:" while part C runs (prefix of violation keys and scenarios)
+	fatal bool   // a panic or harness problem ended the case
+	pre   string // "" for the sequential parts, "concurrent:" while part C runs, "history:" in part D (prefix of violation keys and scenarios)
+	note  any    // part D: the history so far, added to the witnesses of login verdicts
 }
 
 func (c *checker) observed(name string) { c.run.Observed(c.pre + name) }
@@ -139,6 +148,9 @@ func (c *checker) checkLogin(lr *loginRec) bool {
 	run, w, cfg := c.run, c.w, c.w.cfg
 	run.Eval()
 	wit := map[string]any{"config": cfg, "login": lr}
+	if c.note != nil {
+		wit["history"] = c.note // part D: what this RP instance (and its twin) did before this login
+	}
 	vio := func(key, what string) bool {
 		run.Violation("C17:"+c.pre+key, int64(c.idx), what, wit)
 		return false
@@ -188,15 +200,8 @@ func (c *checker) checkLogin(lr *loginRec) bool {
 	if cfg.Collide {
 		run.Count("login", "grey:application-overrides-judged-parameter")
 	} else {
-		scope := strings.Join(cfg.Scopes, " ")
-		for _, p := range []struct{ name, want string }{{"client_id", cfg.ClientID}, {"redirect_uri", cfg.Redirect}, {"scope", scope}, {"state", stored}} {
-			got := q[p.name]
-			if p.want == "" && len(got) == 0 {
-				continue // oauth2 omits empty values; nothing configured, nothing to carry
-			}
-			if !one(got, p.want) {
-				return vio("authurl:"+p.name, fmt.Sprintf("authorization URL carries %s=%q, configured/stored is %q", p.name, got, p.want))
-			}
+		if !c.carriesConfigured(q, stored, vio) {
+			return false
 		}
 		if !one(q["response_type"], "code") {
 			run.Count("login", "grey:response_type-not-code")
@@ -226,6 +231,24 @@ func (c *checker) checkLogin(lr *loginRec) bool {
 		c.observed("authurl:pkce")
 	}
 	run.SampleKind(c.pre+"login", wit)
+	return true
+}
+
+// carriesConfigured: the statement's "the authorization URL always carries the configured client, redirect URI, scopes
+// and that state" for one authorization URL (query q) of the RP of this checker.
+func (c *checker) carriesConfigured(q url.Values, state string, vio func(key, what string) bool) bool {
+	cfg := c.w.cfg
+	scope := strings.Join(cfg.Scopes, " ")
+	for _, p := range []struct{ name, want string }{{"client_id", cfg.ClientID}, {"redirect_uri", cfg.Redirect}, {"scope", scope}, {"state", state}} {
+		got := q[p.name]
+		if p.want == "" && len(got) == 0 {
+			continue // oauth2 omits empty values; nothing configured, nothing to carry
+		}
+		if !one(got, p.want) {
+			vio("authurl:"+p.name, fmt.Sprintf("authorization URL carries %s=%q, configured/stored is %q", p.name, got, p.want))
+			return false
+		}
+	}
 	return true
 }
 
@@ -1206,6 +1229,18 @@ func runCase(run *ev.Run, idx int) {
 	if c.fatal {
 		return
 	}
+	// --- part D
+	tcfg := twinConfig(cfg)
+	tcfg.HashLen, tcfg.BlockLen = len(fHash), len(fBlock)
+	tw, err, pi := newWorld(tcfg, fHash, fBlock, op)
+	if pi != nil || err != nil {
+		run.HarnessBug(fmt.Sprintf("case %d: twin RP construction failed: %v %v", idx, err, pi))
+		return
+	}
+	c.partD(r, tw)
+	if c.fatal {
+		return
+	}
 	if len(op.other) > 0 {
 		run.Count("provider_other_requests", clip(op.other[0], 60))
 	}
@@ -1215,14 +1250,16 @@ func runCase(run *ev.Run, idx int) {
 }
 
 func main() {
+	sched.Install()
 	run := ev.Start("C17", "exploration")
-	run.SetRule("one case = one generated RP configuration (constructor oauth/oidc-discovery × PKCE × JWT-profile signer × cookie keys/options × client data with URL-hostile characters × auth style × handlers) with (B) 16 callbacks over (state cookie class, pkce cookie class, query class incl. POST callbacks whose URL and urlencoded body both carry response parameters in 15 arrangements of (matching | foreign | no state) x (own | other | no code) per place, method, code class) built from two logins of this RP and one of an RP with other keys, and (A) every ordering of 2 interleaved logins (even cases) or 8 of the 90 orderings of 3 (odd cases, round robin) through one browser jar; every login and every callback is an evaluation; distinct = distinct vectors (part, constructor, pkce, signer, encrypted, state-cookie class, pkce-cookie class, query class, method, code class, error param) resp. (constructor, pkce, same-state, ordering, position, jar class) of callbacks that were judged")
+	run.SetRule("one case = one generated RP configuration (constructor oauth/oidc-discovery × PKCE × JWT-profile signer × cookie keys/options × client data with URL-hostile characters × auth style × handlers) with (B) 16 callbacks over (state cookie class, pkce cookie class, query class incl. POST callbacks whose URL and urlencoded body both carry response parameters in 15 arrangements of (matching | foreign | no state) x (own | other | no code) per place, method, code class) built from two logins of this RP and one of an RP with other keys, and (A) every ordering of 2 interleaved logins (even cases) or 8 of the 90 orderings of 3 (odd cases, round robin) through one browser jar, (C) concurrent login / callback rounds on the shared instance, and (D) a history on the same instance and a twin instance with another client id, redirect URI, scopes, PKCE setting and keys: baseline login, 3-6 x (one of 13 other operations of the rp package with per-call data of its own - device authorization with own scopes, device token, client credentials with endpoint parameters, refresh, end session with own redirect URI and state, revocation, userinfo, rp.AuthURL / AuthURLHandler / rp.CodeExchange with per-call overrides of scope, redirect_uri, client_id, state, prompt, code challenge, code-challenge generation, refused callback, completed callback - on the instance or its twin, then a probe: a login through the long-lived AuthURLHandler or a direct rp.AuthURL on the instance or the other one), a final complete flow, and one overlap product (even cases: one operation parked at each of its yield points while a login is served; odd cases: one login parked at each of its yield points while an operation runs; operation by round robin); every login, every direct authorization URL and every callback is an evaluation; distinct = distinct vectors (part, constructor, pkce, signer, encrypted, state-cookie class, pkce-cookie class, query class, method, code class, error param) resp. (constructor, pkce, same-state, ordering, position, jar class) of callbacks that were judged")
 	run.Assume("the harness learns what a cookie stores by decoding it with gorilla/securecookie under the RP's keys and cookie name; what the RP minted is known by provenance (the Set-Cookie headers it produced), so acceptance is never judged by asking the library",
 		"a mutated cookie value that still decodes to the same stored value (unused base64 bits) is an equivalent encoding: grey",
 		"several state values in one callback (duplicate parameter, body and query): only a callback none of whose state values matches must be refused by the unauthorized handler; a duplicate inside one parameter set may be resolved either way",
 		"a POST callback with response parameters in the URL and in a urlencoded body has two consistent readings: the URL parameters alone, or the posted form (each parameter from the body, from the URL only if the body does not carry it - HTTP form semantics; a body carrying everything is the form_post response mode). The state parameter and the code of the callback belong to one reading: a token request for a code the callback carries is a violation unless some reading has that code together with a matching state. Which reading a handler uses, and what it answers when it exchanges nothing, is left open (grey)",
 		"application-supplied URL parameters that override client_id/redirect_uri/scope/state are the application's own doing: URL clauses grey for those configurations",
-		"valid-callback-refused is asserted only for the natural flow: own cookies byte-identical, single matching state, code the fake provider issued for that login's challenge")
+		"valid-callback-refused is asserted only for the natural flow: own cookies byte-identical, single matching state, code the fake provider issued for that login's challenge",
+		"part D: \"configured\" is what the application handed to the constructor of that very instance; whatever else the application did with the instance before or during a login (any other operation of the rp package with arguments of its own, on this or another instance) does not change it - the statement says \"always\". A call for which the application itself passes options overriding a judged parameter is not judged (its own doing); the calls after it are. What the other operations send or return is not C17's concern (histograms only), except callbacks")
 	if run.ReplayCase() >= 0 {
 		runCase(run, int(run.ReplayCase()))
 		run.Finish()
@@ -1236,7 +1273,16 @@ func main() {
 		"interleave:overwritten-login-refused", "interleave:all-6-orderings-of-2", "interleave:all-90-orderings-of-3",
 		"concurrent:login-round-overlapped:shared-handler", "concurrent:login-round-overlapped:own-handlers", "concurrent:callback-round-overlapped",
 		"concurrent:authurl:oauth", "concurrent:authurl:oidc", "concurrent:authurl:pkce", "concurrent:valid:pkce", "concurrent:valid:oauth", "concurrent:valid:oidc",
-		"concurrent:refused:missing", "concurrent:refused:other-login", "concurrent:refused:query-differs", "concurrent:pkce:verifier-from-cookie")
+		"concurrent:refused:missing", "concurrent:refused:other-login", "concurrent:refused:query-differs", "concurrent:pkce:verifier-from-cookie",
+		"history:authurl:oauth", "history:authurl:oidc", "history:authurl:pkce", "history:valid:oauth", "history:valid:oidc", "history:valid:pkce", "history:valid:jwt-profile",
+		"history:direct-authurl-after-operation", "history:twin:login-after-operation", "history:login-after-operation-on-other-instance", "history:completed-flow-after-operations",
+		"history:device-authorization-with-own-scopes-reached-provider", "history:overlap:login-while-operation-parked", "history:overlap:operation-while-login-parked")
+	for _, op := range histOps {
+		run.Mandatory("history:login-after:" + op)
+		if !slices.Contains(histOpsWithoutYieldPoints, op) {
+			run.Mandatory("history:overlap:login-while-parked:" + op)
+		}
+	}
 	n := run.N(1000, 16000)
 	ev.Parallel(n, 0, func(_ int, i int) { runCase(run, i) })
 	n2, n3 := 0, 0
